@@ -126,6 +126,7 @@ class Stack:
     # -- hard reset (not an operation under test): fresh component objects, empty tables -------------------
     def reset(self) -> None:
         app = self.app
+        self._held, self.hold_ts = None, None
         if self.kind != "mem" and app._orchestrator is not None:
             path = app.orchestrator.sqlite_db_path
             from pynenc.util.sqlite_utils import sanitize_table_prefix
@@ -290,6 +291,30 @@ class Stack:
         if k == "hist":
             _, i, st, owner, r = op
             sb.add_history(self.rid(i), InvocationStatusRecord(S(st), owner), rctx(r))
+            return "ok"
+        if k == "histhold":
+            # a history entry whose background writer is LATE: created (and stamped) now, stored at the next `histflush` -
+            # after whatever is recorded in between (the writers are unsynchronised threads)
+            _, i, st, owner, r = op
+            if getattr(self, "_held", None) is not None:
+                return "ok"                      # one at a time
+            real = sb._add_histories
+            held: list = []
+            sb._add_histories = lambda ids, h: held.append((ids, h))  # type: ignore[method-assign]
+            try:
+                sb.add_history(self.rid(i), InvocationStatusRecord(S(st), owner), rctx(r))
+                self.flush()
+            finally:
+                del sb._add_histories
+            self._held = (real, held)
+            self.hold_ts = now
+            return "ok"
+        if k == "histflush":
+            if getattr(self, "_held", None) is not None:
+                real, held = self._held
+                self._held = None
+                for ids, h in held:
+                    real(ids, h)
             return "ok"
         if k == "wf":
             sb.set_workflow_data(self.wfid(op[1]), op[2], op[3])
@@ -469,6 +494,15 @@ class Stack:
             return show_set(c.runner_id for c in sb.get_runner_contexts(list(q[1])))
         if k == "rmatch":
             return show_set(c.runner_id for c in sb.get_matching_runner_contexts(q[1]))
+        if k in ("x.hrange", "x.irange"):
+            # the time-range scans (what the monitor's timeline reads) over the window that ends at the instant of the last late entry
+            t = getattr(self, "hold_ts", None)
+            if t is None:
+                return "-"
+            a, b = self.now_dt(t - 3), self.now_dt(t)
+            if k == "x.hrange":
+                return show_list(sorted(f"{self.L(h.invocation_id)}/{h.status_record.status.value}/{ts_us(h.timestamp)}" for batch in sb.iter_history_in_timerange(a, b) for h in batch))
+            return show_set(str(self.L(i)) for batch in sb.iter_invocations_in_timerange(a, b) for i in batch)
         if k == "appinfo":
             try:
                 return "yes" if sb.get_app_info().app_id == self.app.app_id else "err wrong-app"
@@ -508,7 +542,7 @@ class Stack:
 # the Lean reference model
 # --------------------------------------------------------------------------------------------------------------
 
-TRIGGER_OR_CDS = ("t.", "cds.")
+TRIGGER_OR_CDS = ("t.", "cds.", "x.")
 
 
 def modelled(kind: str) -> bool:
@@ -524,6 +558,7 @@ class Model:
 
     def reset(self) -> None:
         self.n = 0
+        self._held_line = None
         self.info: dict[str, tuple] = {}
 
     def mid(self, x: str | None) -> str | None:
@@ -586,6 +621,13 @@ class Model:
             return f"c16.exc {tok(self.mid(op[1]))} {tok(op[2])}"
         if k == "hist":
             return f"c16.hist {tok(self.mid(op[1]))} {op[2]} {tok(op[3])} {tok(op[4])} {tok(CLS)} {now}"
+        if k == "histhold":
+            if getattr(self, "_held_line", None) is None:
+                self._held_line = f"c16.hist {tok(self.mid(op[1]))} {op[2]} {tok(op[3])} {tok(op[4])} {tok(CLS)} {now}"
+            return f"c16.rctx {tok(op[4])} {tok(CLS)} {tok(None)}"         # (the runner context is stored at once;) the model sees the entry when it is stored
+        if k == "histflush":
+            line, self._held_line = getattr(self, "_held_line", None), None
+            return line
         if k == "wf":
             return f"c16.wf {tok(op[1])} {tok(op[2])} {tok(op[3])}"
         if k == "rctx":
@@ -686,6 +728,7 @@ def readout_queries(labels: list[str], known: list[str], ext: str, ghosts: list[
     qs += [("rctx", r) for r in ("rA", "rB", "rP", ext)]
     qs += [("rctxs", tuple(RUNNERS + [ext]))]
     qs += [("rmatch", p) for p in ("rA", "r")]
+    qs += [("x.hrange",), ("x.irange",)]
     qs += [("t.cond", c) for c in ("c1", "c3")] + [("t.trgs", c) for c in ("c1", "c2")] + [("t.trg", "t1"), ("t.valid",), ("t.cron", "c1"), ("t.cron", "c3")]
     qs += [("cds.get", "pL"), ("cds.get", "ps")]
     return qs
@@ -909,7 +952,7 @@ def arg_class(op: list, n_labels_before: int, known: list | None = None) -> str:
     k = op[0]
     if k in ("incr", "release", "route", "pset", "rereg"):
         return idc(op[1])
-    if k in ("result", "exc", "hist"):
+    if k in ("result", "exc", "hist", "histhold"):
         return idc(op[1])
     if k == "set":
         return f"{idc(op[1])},{'final' if op[2] in FINALS else op[2]}"
